@@ -325,4 +325,6 @@ func tableModelCase(c *hx.Ctx, id string, dev *memdev.Dev, ss int64, got string)
 	c.Case(id+"/table", "detect.table", fmt.Sprintf("gpt=%d", b2i(gptOk)), fmt.Sprintf("mbr=%d", b2i(mbrOk)), fmt.Sprintf("legacy=%d", b2i(legacy)))
 	c.Impl(id+"/table", "table="+got)
 	c.Stat(fmt.Sprintf("table-model.gpt%d-mbr%d-legacy%d", b2i(gptOk), b2i(mbrOk), b2i(legacy)))
+	// the same question over the real acceptance conditions of the two readers (Model/DetectTable.lean)
+	table2Case(c, id, dev, ss)
 }
